@@ -1,5 +1,6 @@
 (* Properties_C09.v — C09: the unconstrained fit minimises the penalised weighted least-squares objective.
-   Statements only; proofs in C09_LinAlg.v (1), C09_Penalty.v (2), C09_Index.v + C09_Glam.v (3), C09_Invariance.v (4).
+   Statements only; proofs in C09_LinAlg.v (1), C09_Penalty.v (2), C09_Index.v + C09_Glam.v + C09_Kron.v (3), C09_Invariance.v (4),
+   C09_Top.v (5).
    The model is FitModel.fit_system (normal matrix and right-hand side exactly as glamfit_complex hands them to
    cholesky_solve); on every run it is compared with the real code and, in exact rationals, with a direct evaluation of
    the statement's objective (tools/props/C09.py).
@@ -12,7 +13,7 @@
    the entry's abscissae, z_e) followed by, per dimension d, the triples (lambda_d, p, 0) for the rows p of
    I x .. x D_d x .. x I  (D_d = rows of divided_diffs coefficients = finitediff). *)
 From Coq Require Import ZArith NArith List Bool Lia QArith Qcanon Permutation.
-From PS Require Import Arith EvalModel BSpline OFieldKit FitModel C09_LinAlg C09_Penalty C09_Index C09_Glam C09_Invariance.
+From PS Require Import Arith EvalModel BSpline OFieldKit FitModel C09_LinAlg C09_Penalty C09_Index C09_Glam C09_Kron C09_Top C09_Invariance.
 Import ListNotations.
 Local Open Scope nat_scope.
 
@@ -78,16 +79,19 @@ Proof.
   rewrite H1. apply (gram_is_nmat F). exact H2.
 Qed.
 
-(* (3) PARTIAL.  Proved, for EVERY number of dimensions and every axis: one slicemultiply — rotate the axes, flatten
-   with strides, multiply by b^T, unflatten with / and %, rotate back, exactly the code's index arithmetic — is the
-   mode-`dim' product:  result[.., c, ..] = sum_r b[r][c] * a[.., r, ..]  (arrays = sums of the entries with equal index).
-   FULL STATEMENT NOT PROVED (kept here; tested exactly on every run as "model == direct"):
-     Theorem C09_glam_is_kron : fit_system dims smoothing porders data
-        = (madd (nmat n Edata) (sum_d lambda_d * calc_penalty ...), nrhs n Edata)
-     with Edata = [(w_e, design_row bases idx_e, z_e)], i.e. the fold of slicemultiply over all dimensions with the boxed
-     bases, followed by reshape_F (split / reorder) and flatten_to_matrix, yields the entries of B^T W B, B = (x)_d B_d.
-   Missing: the induction over the dimensions composing this lemma (needs nested sums over multi-indices and the
-   interchange with the sum over the entries), validity preservation, and the split/reorder/flatten step. *)
+(* (3) the GLAM array arithmetic of glamfit_complex yields B^T W B and B^T W z for B = (x)_d B_d, for EVERY number of
+   dimensions.  Steps, each for every number of dimensions:
+   (3a) C09_glam_is_kron_partial: one slicemultiply — rotate the axes, flatten with strides, multiply by b^T, unflatten with
+        / and %, rotate back, exactly the code's index arithmetic — is the mode-`dim' product
+        result[.., c, ..] = sum_r b[r][c] * a[.., r, ..]  (arrays = sums of the entries with equal index);
+   (3b) C09_glam_fold_multilinear: the fold over the axes 0..D-1 is the multilinear form
+        result[c_1..c_D] = sum_e v_e * prod_d M_d[e_d][c_d];
+   (3c) C09_box_identity: (B box B)[r][c1*n + c2] = B[r][c1] * B[r][c2];
+   (3d) C09_reshape_flatten_bijection: the split (i/n, i%n), reorder (even axes first), flatten of F puts at matrix position
+        (r, c) the array entry with index (j_d * n_d + k_d)_d, j / k the mixed-radix digits of r / c;
+   (3e) C09_glam_is_kron: hence the matrix and right-hand side that the model hands to the solver are
+        sum_e w_e b_e b_e^T (+ penalty) and sum_e w_e z_e b_e with b_e the Kronecker product of the basis rows at the entry's
+        abscissae — the normal matrix / right-hand side of theorem (1) for the objective's data triples. *)
 Theorem C09_glam_is_kron_partial : forall (a : ndarr) (b : list (list K)) (ncolb dim : nat) (idx : list N),
   (dim < length (nd_ranges a))%nat ->
   valid_arr a ->
@@ -104,9 +108,47 @@ Theorem C09_slicemultiply_wellformed : forall (a : @ndarr A) (b : list (list K))
   /\ valid_arr (slicemultiply a b ncolb dim).
 Proof. intros a b ncolb dim H. split; [reflexivity | apply slicemultiply_valid; exact H]. Qed.
 
+(* (3b) the fold of slicemultiply over all axes, with any matrices bm x (nc x columns) *)
+Theorem C09_glam_fold_multilinear : forall (X : Type) (bm : X -> list (list K)) (nc : X -> nat) (ents : list (list N * K))
+    (xs : list X) (rs0 : list N),
+  length rs0 = length xs ->
+  Forall (fun e => valid_idx rs0 (fst e)) ents ->
+  let aF := fold_left (fun a (id : nat * X) => slicemultiply a (bm (snd id)) (nc (snd id)) (fst id))
+                      (combine (seq 0 (length xs)) xs) (mkNd rs0 ents) in
+  nd_ranges aF = map (fun x => N.of_nat (nc x)) xs /\
+  valid_arr aF /\
+  forall idx, valid_idx (map (fun x => N.of_nat (nc x)) xs) idx ->
+    aget aF idx = sumK (map (fun e => mul (snd e) (rowprod (map bm xs) (fst e) idx)) ents).
+Proof. exact (glam_fold_multilinear F). Qed.
+(* (3c) *)
+Theorem C09_box_identity : forall (n : nat) (B : list (list K)) (r j k : N),
+  rows_len n B -> (k < N.of_nat n)%N ->
+  entry (box B B) r (j * N.of_nat n + k) = mul (entry B r j) (entry B r k).
+Proof. exact (entry_box F). Qed.
+(* (3d) ranges n_d^2 on every axis; (r, c) any position of the (prod n_d) x (prod n_d) matrix *)
+Theorem C09_reshape_flatten_bijection : forall (a : @ndarr A) (ns : list N) (r c : nat),
+  nd_ranges a = map (fun n => (n * n)%N) ns -> valid_arr a -> (N.of_nat r < prodN ns)%N -> (N.of_nat c < prodN ns)%N ->
+  nth c (nth r (flatten_to_matrix (reshape_F a) (prodN ns) (prodN ns)) []) zero
+  = aget a (merge ns (unflat ns (N.of_nat r)) (unflat ns (N.of_nat c)))
+  /\ valid_idx (nd_ranges a) (merge ns (unflat ns (N.of_nat r)) (unflat ns (N.of_nat c)))
+  /\ flat ns (unflat ns (N.of_nat r)) = N.of_nat r /\ flat ns (unflat ns (N.of_nat c)) = N.of_nat c.
+Proof. exact (reshape_flatten_matrix_entry F). Qed.
+(* (3e) FULL STATEMENT: data entries are (index tuple, value z, weight w) with the index tuple within the data ranges *)
+Theorem C09_glam_is_kron : forall (dims : list dimspec) (smoothing : list K) (porders : list nat) (data : list (list N * K * K)),
+  Forall (fun e => valid_idx (map (fun d => N.of_nat (length (ds_coords d))) dims) (fst (fst e))) data ->
+  let n := fold_right Nat.mul 1 (map ds_nsplines dims) in
+  let bases := map (fun d => bsplinebasis (ds_knots d) (ds_coords d) (ds_order d)) dims in
+  let E := map (fun e => (snd e, design_row bases (fst (fst e)), snd (fst e))) data in
+  flatten_to_matrix (reshape_F (Farr dims data)) (N.of_nat n) (N.of_nat n) = nmat n E
+  /\ map (fun row => nth 0 row zero) (flatten_to_matrix (Rarr dims data) (N.of_nat n) 1%N) = nrhs n E
+  /\ fit_system dims smoothing porders data = (madd (nmat n E) (penalty_matrix dims smoothing porders), nrhs n E)
+  /\ wf_rows n E.
+Proof. exact (glam_is_kron F). Qed.
+
 (* (4) listing order and zero-weight entries are irrelevant for the objective, the normal matrix and the right-hand
-   side (as functions of the entry list; for the arrays of the GLAM path this rests on the unproved part of (3) and is
-   tested exactly: the model's system of a permuted / zero-weight-padded variant must be identical) *)
+   side (as functions of the entry list; by (3e) the system of the GLAM path IS nmat / nrhs of the data triples, so this
+   carries over to fit_system; additionally tested exactly: the model's system of a permuted / zero-weight-padded variant
+   must be identical) *)
 Theorem C09_zero_weight_and_order_irrelevant : forall n (E E' : list (K * list K * K)) (e : K * list K * K) (c : list K),
   (Permutation E E' -> wrss E' c = wrss E c /\ nmat n E' = nmat n E /\ nrhs n E' = nrhs n E)
   /\ (wf_rows n (e :: E) -> fst (fst e) = zero ->
@@ -116,6 +158,48 @@ Proof.
   - intro H. split; [apply (wrss_perm F); exact H | split; [apply (nmat_perm F); exact H | apply (nrhs_perm F); exact H]].
   - intros Hwf Hw. split; [apply (wrss_zero_weight F); exact Hw | split; [apply (nmat_zero_weight F); assumption | apply (nrhs_zero_weight F); assumption]].
 Qed.
+
+(* (5) the composition of (1), (2), (3): what the model hands to the solver is the normal system of ONE triple list, the
+   property's penalised objective: the data triples (w_e, Kronecker product of the basis rows at the entry's abscissae, z_e)
+   followed by, per dimension d with non-zero smoothing lambda_d, the triples (lambda_d, p, 0) for the rows p of
+   I x .. x D_d x .. x I (penalty_root; D_d = finitediff = rows of divided_diffs coefficients) *)
+Theorem C09_fit_system_is_normal_system : forall (dims : list dimspec) (smoothing : list K) (porders : list nat) (data : list (list N * K * K)),
+  Forall (fun e => valid_idx (map (fun d => N.of_nat (length (ds_coords d))) dims) (fst (fst e))) data ->
+  let n := fold_right Nat.mul 1 (map ds_nsplines dims) in
+  let E := data_triples dims data ++ pen_triples dims smoothing porders in
+  fit_system dims smoothing porders data = (nmat n E, nrhs n E) /\ wf_rows n E.
+Proof. exact (fit_system_is_normal_system F). Qed.
+(* the vocabulary of (5), spelled out: the data triples, and the penalty part of the objective *)
+Theorem C09_objective_vocabulary : forall (dims : list dimspec) (smoothing : list K) (porders : list nat) (data : list (list N * K * K)) (c : list K),
+  data_triples dims data
+  = map (fun e => (snd e, design_row (map (fun d => bsplinebasis (ds_knots d) (ds_coords d) (ds_order d)) dims) (fst (fst e)), snd (fst e))) data
+  /\ wrss (pen_triples dims smoothing porders) c
+     = sumK (map (fun id : nat * dimspec =>
+                    let lam := pick zero smoothing (fst id) in
+                    if eqK lam zero then zero
+                    else mul lam (sumK (map (fun p => sq (dot p c))
+                           (penalty_root (map ds_nsplines dims) (fun k => nth k (ds_knots (snd id)) zero) (fst id) (ds_order (snd id))
+                                         (pick 0 porders (fst id))))))
+                 (combine (seq 0 (length dims)) dims)).
+Proof. intros dims smoothing porders data c. split; [reflexivity | apply (penalty_objective F)]. Qed.
+
+(* with the solver oracle: the coefficients obtained from the model's system minimise
+   J(c) = sum_e w_e (z_e - b_e . c)^2 + sum_d lambda_d sum_{rows p} (p . c)^2, uniquely *)
+Section Solver2.
+Variable solve : list (list K) -> list K -> list K.
+Hypothesis solve_spec : forall n M r, spd n M -> length (solve M r) = n /\ matvec M (solve M r) = r.
+Theorem C09_fit_minimises_penalised_objective : forall (dims : list dimspec) (smoothing : list K) (porders : list nat) (data : list (list N * K * K)),
+  Forall (fun e => valid_idx (map (fun d => N.of_nat (length (ds_coords d))) dims) (fst (fst e))) data ->
+  Forall (fun e => le zero (snd e)) data ->
+  Forall (fun l => le zero l) smoothing ->
+  let n := fold_right Nat.mul 1 (map ds_nsplines dims) in
+  let sys := fit_system dims smoothing porders data in
+  let J := fun c => add (wrss (data_triples dims data) c) (wrss (pen_triples dims smoothing porders) c) in
+  spd n (fst sys) ->
+  let c := solve (fst sys) (snd sys) in
+  length c = n /\ forall c', length c' = n -> le (J c) (J c') /\ (J c' = J c -> c' = c).
+Proof. exact (fit_minimises_penalised_objective F solve solve_spec). Qed.
+End Solver2.
 
 End C09.
 
@@ -150,6 +234,45 @@ Example C09_penalty_instance :
   length (calc_penalty (A := QcA) [3; 4]%nat (fun i => Q2Qc (inject_Z (Z.of_nat (i * i)))) 1 2 2) = 12%nat /\ ([3; 4]%nat <> []).
 Proof. split; [vm_compute; reflexivity | discriminate]. Qed.
 
+(* (3e) on a concrete non-trivial instance: 2 dimensions, linear splines, 2 x 3 coefficients, irregular knots, 3 x 2 grid of
+   abscissae, four data entries two of which share a cell: the hypothesis of C09_glam_is_kron holds, and the system is the
+   non-zero one printed here (entry (0,0) = 2*(1/4)^2 + (1+3)*(1/4)^2 = 3/8) *)
+Definition exq (a : Z) (b : positive) : T QcA := Q2Qc (a # b).
+Definition exdims : list (@dimspec QcA) :=
+  [ mkDim 1 [exq 0 1; exq 1 1; exq 2 1; exq 3 1] [exq 1 2; exq 3 2; exq 5 2];
+    mkDim 1 [exq 0 1; exq 2 1; exq 3 1; exq 5 1; exq 6 1] [exq 1 1; exq 5 2] ].
+Definition exdata : list (list N * T QcA * T QcA) :=
+  [ ([0; 0]%N, exq 1 1, exq 2 1); ([1; 1]%N, exq 3 1, exq 1 1); ([2; 0]%N, exq (-1) 1, exq 1 2); ([1; 1]%N, exq 2 1, exq 3 1) ].
+Example C09_glam_instance :
+  Forall (fun e => valid_idx (map (fun d => N.of_nat (length (ds_coords d))) exdims) (fst (fst e))) exdata
+  /\ fold_right Nat.mul 1 (map ds_nsplines exdims) = 6
+  /\ nth 0 (nth 0 (fst (fit_system exdims [exq 0 1] [1] exdata)) []) zero = exq 3 8
+  /\ snd (fit_system exdims [exq 0 1] [1] exdata) = [exq 11 4; exq 9 4; exq 0 1; exq 17 8; exq 9 4; exq 0 1]
+  /\ nrhs 6 (map (fun e => (snd e, design_row (map (fun d => bsplinebasis (ds_knots d) (ds_coords d) (ds_order d)) exdims) (fst (fst e)),
+                            snd (fst e))) exdata)
+     = [exq 11 4; exq 9 4; exq 0 1; exq 17 8; exq 9 4; exq 0 1].
+Proof.
+  split; [vm_compute; repeat constructor|]. split; [reflexivity|]. split; [vm_compute; reflexivity|].
+  split; [vm_compute; reflexivity|].
+  destruct (C09_glam_is_kron QcA_OField exdims [exq 0 1] [1] exdata) as [_ [_ [H _]]]; [vm_compute; repeat constructor|].
+  apply (f_equal snd) in H. cbn [snd] in H. etransitivity; [symmetry; exact H | vm_compute; reflexivity].
+Qed.
+
+(* (5) hypotheses satisfiable: 1 dimension, order 0, one coefficient, one datum of weight 13, smoothing 0: the system matrix
+   is [[13]] = nmat 1 exE, positive definite by the example above *)
+Definition exdims1 : list (@dimspec QcA) := [ mkDim 0 [exq 0 1; exq 1 1] [exq 1 2] ].
+Definition exdata1 : list (list N * T QcA * T QcA) := [ ([0]%N, exq 2 1, exq 13 1) ].
+Example C09_top_hypotheses_satisfiable :
+  Forall (fun e => valid_idx (map (fun d => N.of_nat (length (ds_coords d))) exdims1) (fst (fst e))) exdata1
+  /\ Forall (fun e => OFieldKit.le (A := QcA) zero (snd e)) exdata1
+  /\ Forall (fun l => OFieldKit.le (A := QcA) zero l) [exq 0 1]
+  /\ spd (A := QcA) (fold_right Nat.mul 1 (map ds_nsplines exdims1)) (fst (fit_system exdims1 [exq 0 1] [0] exdata1)).
+Proof.
+  split; [vm_compute; repeat constructor|]. split; [repeat constructor|]. split; [repeat constructor|].
+  replace (fst (fit_system exdims1 [exq 0 1] [0] exdata1)) with (nmat (A := QcA) 1 exE) by (vm_compute; reflexivity).
+  exact (proj2 (proj2 (proj2 C09_hypotheses_satisfiable))).
+Qed.
+
 Print Assumptions C09_normal_eq_minimise.
 Print Assumptions C09_fit_minimises.
 Print Assumptions C09_penalty_is_DtD.
@@ -157,4 +280,11 @@ Print Assumptions C09_penalty_1d.
 Print Assumptions C09_penalty_is_normal_matrix.
 Print Assumptions C09_glam_is_kron_partial.
 Print Assumptions C09_slicemultiply_wellformed.
+Print Assumptions C09_glam_fold_multilinear.
+Print Assumptions C09_box_identity.
+Print Assumptions C09_reshape_flatten_bijection.
+Print Assumptions C09_glam_is_kron.
 Print Assumptions C09_zero_weight_and_order_irrelevant.
+Print Assumptions C09_fit_system_is_normal_system.
+Print Assumptions C09_objective_vocabulary.
+Print Assumptions C09_fit_minimises_penalised_objective.
